@@ -4,7 +4,7 @@ CONSTANTS
   NSamp = 2
   EmitReplay = TRUE
   Lowers = {FALSE}
-  KK = 7
+  KK = 15
   Ancs = {1}
 INVARIANTS Positioned
 CHECK_DEADLOCK FALSE
